@@ -5,7 +5,7 @@ CONSTANTS
   MaxLeaves2 = 4
   Cells1 <- AllCells
   Cells2 <- CellsSG
-  Weights = {1, 2}
+  Weights = {0, 1, 2}
   FullLeaves = 4
   RootMinLeaves = 4
   SMLeaves = 2
